@@ -1084,6 +1084,18 @@ func (schema *Schema) validate(ctx context.Context, stack []*Schema) ([]*Schema,
 		}
 	}
 
+	if v := schema.Discriminator; v != nil {
+		if err := v.Validate(ctx); err != nil {
+			return stack, fmt.Errorf("invalid discriminator: %w", err)
+		}
+	}
+
+	if v := schema.XML; v != nil {
+		if err := v.Validate(ctx); err != nil {
+			return stack, fmt.Errorf("invalid xml: %w", err)
+		}
+	}
+
 	if v := schema.Default; v != nil && !validationOpts.schemaDefaultsValidationDisabled {
 		if err := schema.VisitJSON(v); err != nil {
 			return stack, fmt.Errorf("invalid default: %w", err)
